@@ -60,7 +60,8 @@ static void build_trace(const Theo::Program &prog, size_t maxsteps, Trace &tr) {
 }
 
 struct Op {
-  enum K { EXECUTE, SINGLE, SINGLE_N, STEP_ON, STEP_OFF, ENABLE, DISABLE, CLEAR, RESET, READ, ENABLE_ALL } k = SINGLE;
+  enum K { EXECUTE, SINGLE, SINGLE_N, STEP_ON, STEP_OFF, ENABLE, DISABLE, CLEAR, RESET, READ, ENABLE_ALL, UNTIL_DONE } k = SINGLE;
+  bool exec() const { return k == EXECUTE || k == SINGLE || k == SINGLE_N || k == UNTIL_DONE; }
   Loc loc;
   int n = 1;
 };
@@ -78,6 +79,7 @@ static std::string op_str(const Op &o) {
     case Op::RESET: return "reset";
     case Op::READ: return "read";
     case Op::ENABLE_ALL: return "enable-all";
+    case Op::UNTIL_DONE: return "step-until-done";
   }
   return "?";
 }
@@ -188,10 +190,13 @@ static bool run_history(const Trace &tr, const std::vector<Op> &ops, Result &r, 
         break;
       }
       case Op::SINGLE:
+      case Op::UNTIL_DONE:  // the user loop `while (!vm.isDone()) vm.executeSingle();` - return values ignored
       case Op::SINGLE_N: {
-        int n = op.k == Op::SINGLE ? 1 : op.n;
+        bool until_done = op.k == Op::UNTIL_DONE;
+        int n = op.k == Op::SINGLE ? 1 : until_done ? (int)(last - m.k) : op.n;
         for (int i = 0; i < n; i++) {
           if (m.k >= last && !tr.halted) break;  // end of the recorded prefix
+          if (until_done && vm.isDone()) break;
           bool ret = vm.executeSingle();
           if (shadow) {
             bool r2 = shadow->executeSingle();
@@ -220,7 +225,7 @@ static bool run_history(const Trace &tr, const std::vector<Op> &ops, Result &r, 
           model_ret = expect;
           have_ret = true;
           if (ret != expect) break;
-          if (ret) break;  // a user loop stops stepping here
+          if (ret && !until_done) break;  // a user loop stops stepping here
         }
         break;
       }
@@ -306,10 +311,18 @@ static bool run_history(const Trace &tr, const std::vector<Op> &ops, Result &r, 
         break;
       }
     }
-    if (op.k != Op::RESET && (op.k == Op::EXECUTE || op.k == Op::SINGLE || op.k == Op::SINGLE_N) && m.k > 0) expect_none = false;
+    if (op.k != Op::RESET && op.exec() && m.k > 0) expect_none = false;
     // ---- compare with the model
     Obs o = observe(vm, prog);
     std::string ctx = " after [" + hist + "]";
+    // C17: the end is absorbing
+    if (was_done && op.exec()) {
+      st.absorbing_checked = true;
+      if (o.ip != before_obs.ip || o.digest != before_obs.digest || o.enabled != before_obs.enabled || o.cur != before_obs.cur || !o.done ||
+          (have_ret && !ret_bool)) {
+        if (failf("C17", "reset:end-not-absorbing", "the end of the program had been reached, yet " + op_str(op) + " changed the machine" + ctx)) return false;
+      }
+    }
     if (have_ret && ret_bool != model_ret) {
       const char *f = (op.k == Op::ENABLE || op.k == Op::DISABLE) ? "C06" : "C06";
       if (failf(f, (op.k == Op::ENABLE || op.k == Op::DISABLE) ? "stop:setBreakPoint-result" : "stop:executeSingle-result",
@@ -321,7 +334,7 @@ static bool run_history(const Trace &tr, const std::vector<Op> &ops, Result &r, 
       bool on_path = false;
       for (size_t j = 0; j < tr.ips.size(); j++)
         if (tr.ips[j] == o.ip) on_path = true;
-      bool exec_op = op.k == Op::EXECUTE || op.k == Op::SINGLE || op.k == Op::SINGLE_N;
+      bool exec_op = op.exec();
       const char *f = (!exec_op || !on_path) ? "C05" : "C06";
       if (op.k == Op::RESET) f = "C17";
       if (failf(f, std::string(f[2] == '5' ? "transparent" : f[2] == '6' ? "stop" : "reset") + ":wrong-position",
@@ -364,7 +377,7 @@ static bool run_history(const Trace &tr, const std::vector<Op> &ops, Result &r, 
       if (o.depth >= 2) st.stop_in_callee = true;
     }
     {
-      bool exec_op = op.k == Op::EXECUTE || op.k == Op::SINGLE || op.k == Op::SINGLE_N;
+      bool exec_op = op.exec();
       if (op.k == Op::RESET)
         standing = false;
       else if (exec_op) {
@@ -412,14 +425,6 @@ static bool run_history(const Trace &tr, const std::vector<Op> &ops, Result &r, 
         if (failf("C17", "reset:differs-from-fresh", "the reset machine and a fresh machine driven by the same calls differ" + ctx)) return false;
       }
     }
-    // C17: the end is absorbing
-    if (was_done && (op.k == Op::EXECUTE || op.k == Op::SINGLE || op.k == Op::SINGLE_N)) {
-      st.absorbing_checked = true;
-      if (o.ip != before_obs.ip || o.digest != before_obs.digest || o.enabled != before_obs.enabled || o.cur != before_obs.cur || !o.done ||
-          (have_ret && !ret_bool)) {
-        if (failf("C17", "reset:end-not-absorbing", "the end of the program had been reached, yet " + op_str(op) + " changed the machine" + ctx)) return false;
-      }
-    }
     if (model_done) st.reached_end = true;
   }
   // complete the history: clear; stepping off; execute  => same final values as the uninterrupted run
@@ -443,7 +448,17 @@ static Op decode_op(Tape &t, const Trace &tr, bool with_reset) {
   pool.push_back({"nofile.theo", 1});
   pool.push_back({tr.available.empty() ? std::string("main.theo") : tr.available[0].first, 99999});
   pool.push_back({"__standards__", 1});
-  switch (t.weighted({5, 5, 3, 2, 2, 6, 3, 1, (unsigned)(with_reset ? 2 : 0), 1, 1})) {
+  // every location the program's own tables name: a request for one that the public listing omits must fail
+  for (auto &e : tr.prog.line_info) {
+    Loc l{e.second.file, e.second.line};
+    if (std::find(pool.begin(), pool.end(), l) == pool.end()) pool.push_back(l);
+  }
+  for (auto &e : tr.prog.potential_breaks) {
+    Loc l{e.first.file, e.first.line};
+    if (std::find(pool.begin(), pool.end(), l) == pool.end()) pool.push_back(l);
+  }
+  switch (t.weighted({5, 5, 3, 2, 2, 6, 3, 1, (unsigned)(with_reset ? 2 : 0), 1, 1, 1})) {
+    case 11: o.k = Op::UNTIL_DONE; break;
     case 0: o.k = Op::SINGLE; break;
     case 1: o.k = Op::EXECUTE; break;
     case 2:
@@ -512,6 +527,10 @@ static void prop_dbg(Tape &t, Result &r, const std::string &prop) {
   gp::Program p = g.generate();
   gp::normalise(p);
   gp::Layout L = canonical ? gp::layout_canonical(p, lt, nfiles) : gp::layout_free(p, lt, nfiles);
+  if (L.blank_includes) r.cls("layout:include-of-a-file-without-tokens");
+  if (L.body_includes) r.cls("layout:include-inside-a-macro-body");
+  if (L.main.rfind("__", 0) == 0) r.cls("layout:file-names-starting-with-__");
+  if (L.main.rfind("Cc/", 0) == 0) r.cls("layout:file-names-differing-in-case-only");
   Theo::CodegenResult cr = Theo::compile(L.files, L.main);
   r.hash = glue::files_hash(L.files, L.main);
   if (!cr.generated_correctly) {
@@ -644,6 +663,7 @@ static bool parse_op(const std::string &s, Op &o) {
   else if (s == "reset") o.k = Op::RESET;
   else if (s == "read") o.k = Op::READ;
   else if (s == "enable-all") o.k = Op::ENABLE_ALL;
+  else if (s == "step-until-done") o.k = Op::UNTIL_DONE;
   else return false;
   return true;
 }
